@@ -581,8 +581,16 @@ func (e *Exec) lowerRope(r symStr, fn string) value {
 			out = append(out, piece{k: pTok, t: t})
 		case pItoa, pUtoa:
 			out = append(out, x)
+		case pByte:
+			// ASCII letters only (bytes >= 0x80 belong to multi-byte runes whose case mapping is outside the model)
+			e.Stats.Assumptions["case mapping of a symbolic byte maps ASCII letters and leaves every other byte as it is"] = true
+			if fn == "lower" {
+				out = append(out, piece{k: pByte, t: fmt.Sprintf("(ite (and (bvuge %s #x41) (bvule %s #x5a)) (bvadd %s #x20) %s)", x.t, x.t, x.t, x.t)})
+			} else {
+				out = append(out, piece{k: pByte, t: fmt.Sprintf("(ite (and (bvuge %s #x61) (bvule %s #x7a)) (bvsub %s #x20) %s)", x.t, x.t, x.t, x.t)})
+			}
 		default:
-			panic(abortPath{why: "case mapping of symbolic bytes/float", kind: "unsupported"})
+			panic(abortPath{why: "case mapping of symbolic float", kind: "unsupported"})
 		}
 	}
 	return ropeVal(symStr{p: out})
